@@ -163,3 +163,30 @@ def check_c18(c):
         nontrivial=lambda cmd, args, impl: impl.startswith("ok|"),
         assumptions=["theorems: no Panic / no Fuel for ALL byte strings shorter than 2^31 and ANY inflate function; allocation is bounded by the input and by what inflate returns (zlib's output size is outside the model)",
                      "Go run-time faults other than the modelled ones (stack overflow, OOM inside zlib) are outside the model; the harness still reports them (panic / hang / process death)"])
+
+
+STACK_RULE = ("executions of the real stack code under the deterministic scheduler (every package-level fs call of stack.go / reftable.go is a scheduling point; real temp directory): "
+              "25 scenarios of 2..3 handles (pairs from the menu add / add+auto-compaction / CompactAll / expiry / multi-table Addition / empty Add / failing Add / read / reload / Close / Clean, "
+              "on a 3-table, 5-table or empty initial stack, SHA-1 and SHA-256, with the reload give-up clock); per scenario: every non-pre-emptive order, every single pre-emption point "
+              "(thorough: pairs of pre-emption points), a crash of a handle before each of its steps with the others continuing, seeded random burst schedules. "
+              "After every fs operation the directory is snapshotted (tables.list, every listed table decoded, all files). non-trivial = the schedule pre-empts or crashes a handle; distinct by (scenario, schedule)")
+
+
+def _stack_check(c, hprop, prop_files, lemma_files, what):
+    generic(
+        c, hprop, prop_files, lemma_files,
+        what_tie="trace of fs operations / results / snapshots of the Go stack code under the scheduler, judged by the extracted trace predicate of the property (Model/StackTrace.v)",
+        rule=STACK_RULE + ". " + what,
+        nontrivial=lambda cmd, args, impl: ("sw=" in args and "sw= " not in args) or ("crash=" in args and "crash= " not in args) or ("explicit=" in args and not args.endswith("explicit=")),
+        assumptions=["POSIX semantics of O_EXCL create, rename, unlink-with-open-descriptor are the kernel's (real directory); power loss / fsync are outside the property",
+                     "table names are assumed fresh (32 random bits in the code)",
+                     "the scheduler sees the fs calls that the gofmt -r rewriting redirected (os.OpenFile/Open/Rename/Remove, ioutil.ReadFile/TempFile/ReadDir, time.Now in stack.go and reftable.go)"])
+
+
+def check_c04(c): _stack_check(c, "c04", ["Properties/C04.v"], [], "Oracle c04_ok: after every fs operation the transactions in the listed tables, in order, are exactly the committed ones in commit order; Add returns success iff its transaction committed during the call; only lock failures and content rejections as errors.")
+def check_c05(c): _stack_check(c, "c05", ["Properties/C05.v"], [], "Oracle c05_ok: after every fs operation every listed table exists, decodes, has the stack's hash id, ranges strictly increasing; no successful remove of a listed table.")
+def check_c06(c): _stack_check(c, "c06", ["Properties/C06.v"], [], "Oracle c06_ok on the crash schedules: c04_ok, c05_ok and c10_ok with a handle crashed before each of its steps; surviving handles' calls succeed.")
+def check_c08(c): _stack_check(c, "c08", ["Properties/C08.v"], [], "Oracle c08_ok: every successful remove / rename of a *.lock path is by the handle whose O_EXCL create made it; never two owners.")
+def check_c09(c): _stack_check(c, "c09", ["Properties/C09.v"], [], "Oracle c09_ok: an undisturbed Add through a stale handle returns ErrLockFailure, leaves the directory unchanged and the handle refreshed; through an up-to-date handle it commits.")
+def check_c10(c): _stack_check(c, "c10", ["Properties/C10.v"], [], "Oracle c10_ok: every read returns exactly a prefix of the commit order (one committed version), monotone per handle, with the matching 'shared' value; after every call all held readers are open and the held names are one version of tables.list.")
+def check_c16(c): _stack_check(c, "c16", ["Properties/C16.v"], [], "Oracle c16_ok: whenever no handle is inside a call and none crashed, the directory holds exactly tables.list and the tables it names.")
